@@ -35,12 +35,18 @@ CLASSES = {
 
 
 def classify(v):
-    """The driver reports every observed circumstance that may explain the violation ("|"-separated)."""
+    """The driver reports every observed circumstance that may explain the violation ("|"-separated). The violation is
+    known iff one (circumstance, kind) pair belongs to the class of an OPEN finding; a pair of a repaired class explains
+    nothing any more (the violation is then reported under that class and fails the run)."""
+    found = []
     for site in v["site"].split("|"):
         for name, c in CLASSES.items():
             if site == c["site"] and v["kind"] in c["kinds"]:
-                return name
-    return "unclassified"
+                found.append(name)
+    for name in found:
+        if vlib.match_known(PROPS[0], {"class": name}):
+            return name
+    return found[0] if found else "unclassified"
 
 
 def to_steps(hist):
